@@ -144,6 +144,26 @@ fn run_fixed(c: &FixedCase) -> Outcome {
                 );
             }
         }
+        // writing what was read: the parsed packet serialised again is a truthful framing of the
+        // same body (a legacy header stays a legacy header of the right length type)
+        {
+            use pgp::ser::Serialize as _;
+            if let Some(Ok(p)) = pgp::packet::PacketParser::new(&framed[..]).next() {
+                if let Ok(written) = p.to_bytes() {
+                    match frame::deframe(&written) {
+                        Ok(fr) if fr.len() == 1 && fr[0].tag == c.tag && (c.tag != 11 || fr[0].body == body) && fr[0].body.len() == packet_body(&p).len() => {
+                            if p.write_len() != written.len() {
+                                o.push("C17:fixed:rewritten-packet-length-query-differs", format!("tag {} n {} form {:?}: write_len {} for {} octets", c.tag, body.len(), c.form, p.write_len(), written.len()));
+                            }
+                        }
+                        other => o.push(
+                            "C17:fixed:rewritten-packet-not-a-truthful-framing",
+                            format!("tag {} n {} read from {:?} framing: written as {} octets that deframe to {:?}", c.tag, body.len(), c.form, written.len(), other.map(|f| f.iter().map(|x| (x.tag, x.body.len())).collect::<Vec<_>>()).map_err(|e| format!("{e:?}"))),
+                        ),
+                    }
+                }
+            }
+        }
         if follower && o1.len() != 2 {
             o.push(
                 "C17:fixed:following-packet-lost",
@@ -394,6 +414,9 @@ fn run_written(c: &WrittenCase) -> Outcome {
     let seed = 500 + c.n as u64;
     let bytes = match msg::build_vec(&c.cfg, &payload, seed) {
         Ok(b) => b,
+        // a partial chunk size below 512 is not legal: refusing it is right, and whatever is
+        // written instead must still be legal framing
+        Err(_) if (1..9).contains(&c.cfg.partial_exp) => return Outcome::ok("illegal-chunk-size-refused"),
         Err(e) => return Outcome::bad("C17:written:build-error", e.to_string()),
     };
     let ctx = format!("cfg {:?} n {}", c.cfg, c.n);
@@ -836,6 +859,16 @@ pub fn check(ctx: &Ctx) {
             if n > 600 {
                 let mut c2 = cfg.clone();
                 c2.partial_exp = 13;
+                wc.push(WrittenCase { cfg: c2, n });
+            }
+        }
+    }
+    // partial chunk sizes the format does not allow (below 512): refused, or nothing illegal written
+    for cfg in spine.iter().filter(|c| !c.text && c.signers.len() <= 1) {
+        for exp in 1..=8u8 {
+            for n in [600usize, 3000] {
+                let mut c2 = cfg.clone();
+                c2.partial_exp = exp;
                 wc.push(WrittenCase { cfg: c2, n });
             }
         }
